@@ -212,7 +212,8 @@ func vpMk_Int(shape int, tag byte) int64 {
 func vpEq_Int(a, b int64) bool { return a == b }
 func vpZero_Int(a int64) bool  { return a == 0 }
 
-var vpFloats = []float64{12.25, -0.5, 90}
+// floats: exact binary fractions, a whole number, seven decimals, a very small and a very large one
+var vpFloats = []float64{12.25, -0.5, 90, 45.1234567, 1e-7, -123456789.125, 1e21}
 
 func vpMk_Float(shape int, tag byte) float64 { return vpFloats[shape%len(vpFloats)] }
 func vpEq_Float(a, b float64) bool           { return a == b }
@@ -290,7 +291,9 @@ func vpShapes(kind string) int {
 		return 11
 	case "Items":
 		return 4
-	case "Time", "Duration", "Float":
+	case "Float":
+		return len(vpFloats)
+	case "Time", "Duration":
 		return 3
 	case "Source", "PublicKey":
 		return 4
